@@ -135,6 +135,9 @@ func BuildModel(n int, hist []Call) *Model {
 		case "retries":
 			add(c.A)
 			m.Retries[c.A] = c.R
+			if c.R < 0 {
+				m.Retries[c.A] = 0 // a negative number of retries means none: one attempt
+			}
 			retriesSet[c.A] = true
 		case "dep":
 			add(c.A)
